@@ -33,7 +33,10 @@ def cases(draw, tier="quick"):
     if draw(st.integers(0, 7)) == 0:
         # a long one-directional history (two-digit phase numbers), tiny payloads
         side = draw(st.integers(0, 1))
-        P["sends"][side] = [b"%d" % k for k in range(draw(st.integers(11, 14)))]
+        P["sends"][side] = [b"%d" % k for k in range(draw(st.integers(11, 16)))]
+        if draw(st.booleans()):
+            # ... read by a reader that asks for all of them at once, late
+            P["many_gets"] = True
     P["drops"] = draw(st.sampled_from([0, 0, 1, 2, 3, 5]))
     P["dup"] = draw(st.booleans())
     P["reorder"] = draw(st.booleans())
@@ -42,6 +45,10 @@ def cases(draw, tier="quick"):
     # records travel through the same mailbox, numbered separately from the application phases
     P["dilate"] = draw(st.sampled_from([[False, False], [False, False], [True, False], [False, True], [True, True]]))
     P["extra_msg_gets"] = draw(st.sampled_from([0, 1, 2, 3]))
+    if P.get("many_gets"):
+        # fewer requests than messages, so that the callbacks' follow-up reads find buffered messages too
+        P["get_burst"] = draw(st.integers(11, 13))
+        P["gets"] = "late"
     if draw(st.integers(0, 2)) == 0:
         # one side reads slowly: its inbound queue builds up, so dup/reorder act on many messages at once
         slow = draw(st.integers(0, 1))
